@@ -232,6 +232,11 @@ func (s Schema) JSONLookup(token string) (interface{}, error) {
 		return &ex, nil
 	}
 
+	if token == "$schema" && s.Schema != "" {
+		// "$schema" is not a tagged field of the schema properties
+		return string(s.Schema), nil
+	}
+
 	r, _, err := jsonpointer.GetForToken(s.SchemaProps, token)
 	if r != nil || (err != nil && !strings.HasPrefix(err.Error(), "object has no field")) {
 		return r, err
